@@ -415,7 +415,6 @@ type c17env struct {
 	hosts   map[string]bool
 	ports   map[string]int    // server kind -> tcp port
 	unix    map[string]string // server kind -> abstract unix name
-	qport   int               // udp port standing for PORT in quic/h3 cases
 	lowPort bool              // may bind ports < 1024
 	v6      bool
 	tlsCfg  *tls.Config
@@ -517,7 +516,7 @@ func (h c17dohHandler) ServeHTTP(w http.ResponseWriter, req *http.Request) {
 	if h.record != nil {
 		h.record(req.Host)
 	}
-	b, err := base64url(req.URL.Query().Get("dns"))
+	b, err := c17base64url(req.URL.Query().Get("dns"))
 	q := new(dns.Msg)
 	if err != nil || q.Unpack(b) != nil {
 		w.WriteHeader(400)
@@ -562,9 +561,14 @@ func c17setup() {
 		l.Close()
 		e.v6 = true
 	}
-	if pc, err := net.ListenPacket("udp", "127.0.0.1:853"); err == nil {
+	e.lowPort = true
+	for _, p := range []string{"53", "80", "443", "853"} {
+		pc, err := net.ListenPacket("udp", "127.0.0.2:"+p)
+		if err != nil {
+			e.lowPort = false // no privilege (or somebody listens on the wildcard address)
+			break
+		}
 		pc.Close()
-		e.lowPort = true
 	}
 	net.DefaultResolver = &net.Resolver{PreferGo: true, Dial: func(ctx context.Context, network, address string) (net.Conn, error) {
 		a, b := net.Pipe()
@@ -593,25 +597,12 @@ func c17setup() {
 			case "dot":
 				go c17serveDoT(l, e.tlsCfg)
 			case "https":
-				hs := &http.Server{Handler: c17dohHandler{record}, TLSConfig: e.tlsCfg.Clone(), ErrorLog: nullLogger()}
+				hs := &http.Server{Handler: c17dohHandler{record}, TLSConfig: e.tlsCfg.Clone(), ErrorLog: c17nullLogger()}
 				go hs.ServeTLS(l, "", "")
 			case "http":
-				hs := &http.Server{Handler: c17dohHandler{record}, ErrorLog: nullLogger()}
+				hs := &http.Server{Handler: c17dohHandler{record}, ErrorLog: c17nullLogger()}
 				go hs.Serve(l)
 			}
-		}
-	}
-	// a UDP port number that is free right now, to stand for PORT in quic/h3 cases
-	for {
-		pc, err := net.ListenPacket("udp", "127.0.0.1:0")
-		if err != nil {
-			panic(err)
-		}
-		p := pc.LocalAddr().(*net.UDPAddr).Port
-		pc.Close()
-		if p >= 32768 {
-			e.qport = p
-			break
 		}
 	}
 }
@@ -697,9 +688,6 @@ func c17dialRun(cs string) string {
 	kind := c17serverKind(scheme)
 	quicLike := c17quicBased(scheme)
 	livePort := e.ports[kind]
-	if quicLike {
-		livePort = e.qport
-	}
 	liveUnix := e.unix[kind]
 	sub := func(s string) string {
 		s = strings.ReplaceAll(s, "PORT", strconv.Itoa(livePort))
@@ -741,7 +729,9 @@ func c17dialRun(cs string) string {
 		return errors.New("aborted by the harness")
 	}
 
-	// QUIC based: the dial target is observed by UDP sinks on the candidate addresses
+	// QUIC based: there is no per-dial Control callback; the dial target is observed by UDP
+	// sinks bound on the candidate (loopback address, port) pairs. PORT stands for a port that is
+	// free on all candidate addresses right now.
 	hit := make(chan struct{}, 64)
 	var sinks []net.PacketConn
 	if quicLike {
@@ -749,7 +739,91 @@ func c17dialRun(cs string) string {
 			syscall.Flock(int(c17sinkLock.Fd()), syscall.LOCK_EX)
 			defer syscall.Flock(int(c17sinkLock.Fd()), syscall.LOCK_UN)
 		}
-		ports := map[int]bool{livePort: true}
+		ips := map[netip.Addr]bool{}
+		for _, a := range ns {
+			if a.IsLoopback() {
+				ips[a] = true
+			}
+		}
+		bind := func(ip netip.Addr, p int) (net.PacketConn, string, netip.AddrPort, error) {
+			ap := netip.AddrPortFrom(ip, uint16(p))
+			network := "udp4"
+			if ip.Is6() {
+				network = "udp6"
+			}
+			var pc net.PacketConn
+			var err error
+			for try := 0; try < 20; try++ {
+				if pc, err = net.ListenPacket(network, ap.String()); err == nil {
+					break
+				}
+				time.Sleep(25 * time.Millisecond)
+			}
+			return pc, network, ap, err
+		}
+		listen := func(pc net.PacketConn, network string, ap netip.AddrPort, live bool) {
+			sinks = append(sinks, pc)
+			name := network + "|" + ap.String()
+			if live {
+				name = network + "|" + netip.AddrPortFrom(ap.Addr(), 0).String()
+				name = strings.TrimSuffix(name, "0") + "PORT"
+			}
+			go func() {
+				buf := make([]byte, 2048)
+				for {
+					if _, _, err := pc.ReadFrom(buf); err != nil {
+						return
+					}
+					mu.Lock()
+					seen[name] = true
+					mu.Unlock()
+					select {
+					case hit <- struct{}{}:
+					default:
+					}
+				}
+			}()
+		}
+		// the live port
+	pick:
+		for try := 0; try < 50; try++ {
+			probe, err := net.ListenPacket("udp4", "127.0.0.1:0")
+			if err != nil {
+				panic(err)
+			}
+			p := probe.LocalAddr().(*net.UDPAddr).Port
+			probe.Close()
+			if p < 32768 {
+				continue
+			}
+			var got []net.PacketConn
+			for ip := range ips {
+				network := "udp4"
+				if ip.Is6() {
+					network = "udp6"
+				}
+				pc, err := net.ListenPacket(network, netip.AddrPortFrom(ip, uint16(p)).String())
+				if err != nil {
+					for _, g := range got {
+						g.Close()
+					}
+					continue pick
+				}
+				got = append(got, pc)
+			}
+			livePort = p
+			k := 0
+			for ip := range ips {
+				network := "udp4"
+				if ip.Is6() {
+					network = "udp6"
+				}
+				listen(got[k], network, netip.AddrPortFrom(ip, uint16(p)), true)
+				k++
+			}
+			break
+		}
+		ports := map[int]bool{}
 		for _, p := range numPorts {
 			ports[p] = true
 		}
@@ -758,39 +832,14 @@ func c17dialRun(cs string) string {
 				ports[p] = true
 			}
 		}
-		ips := map[netip.Addr]bool{}
-		for _, a := range ns {
-			if a.IsLoopback() {
-				ips[a] = true
-			}
-		}
 		for ip := range ips {
 			for p := range ports {
-				ap := netip.AddrPortFrom(ip, uint16(p))
-				network := "udp4"
-				if ip.Is6() {
-					network = "udp6"
-				}
-				pc, err := net.ListenPacket(network, ap.String())
+				pc, network, ap, err := bind(ip, p)
 				if err != nil {
+					fmt.Fprintf(os.Stderr, "c17: cannot bind sink %v: %v\n", ap, err)
 					continue
 				}
-				sinks = append(sinks, pc)
-				go func() {
-					buf := make([]byte, 2048)
-					for {
-						if _, _, err := pc.ReadFrom(buf); err != nil {
-							return
-						}
-						mu.Lock()
-						seen[network+"|"+unsub(ap.String())] = true
-						mu.Unlock()
-						select {
-						case hit <- struct{}{}:
-						default:
-						}
-					}
-				}()
+				listen(pc, network, ap, false)
 			}
 		}
 	}
@@ -812,7 +861,8 @@ func c17dialRun(cs string) string {
 	q := new(dns.Msg)
 	q.SetQuestion("c17.test.", dns.TypeA)
 	qb, _ := q.Pack()
-	ctx, cancel := context.WithTimeout(context.Background(), 400*time.Millisecond)
+	// generous: every case ends by itself (answer, aborted dial, refused connection, first datagram)
+	ctx, cancel := context.WithTimeout(context.Background(), 3*time.Second)
 	if quicLike {
 		go func() {
 			select {
